@@ -2,6 +2,7 @@
 vt/proto.py: Conv.build()).  All randomness comes from the seeded rng handed in."""
 import random
 from .proto import *
+from . import gens_big as GB
 
 ERR_KINDS_SMALL = ["ER_NO", "ER_BAD_DB_ERROR", "ER_PARSE_ERROR", "ER_NO_SUCH_TABLE", "ER_DUP_ENTRY",
                    "ER_ACCESS_DENIED_ERROR", "ER_UNKNOWN_ERROR", "ER_LOCK_DEADLOCK"]
@@ -1381,3 +1382,20 @@ def gen_C20(rng, tier):
             junk = hdr(rng.randint(0, L), rng.getrandbits(8)) + junk
         out.append(raw_conv("C20-j%05d" % i, junk, chunks=rand_chunks(rng)))
     return out
+
+
+# ------------------------------------------------------------------------------------------------
+# 16-50 MiB messages (run-length encoded traces, judged by spec/TraceBig.tla)
+gen_C04 = GB.gen_C04
+
+
+def _with_big(flat_gen, big_gen):
+    def g(rng, tier):
+        return flat_gen(rng, tier) + big_gen(rng, tier)
+    return g
+
+
+gen_C01 = _with_big(gen_C01, GB.gen_C01_big)
+gen_C17 = _with_big(gen_C17, GB.gen_C17_big)
+gen_C05 = _with_big(gen_C05, GB.gen_C05_big)
+gen_C20 = _with_big(gen_C20, GB.gen_C20_big)
